@@ -172,6 +172,12 @@ func init() {
 			strings.Contains(decBody, "e.cipherMode.Open(nil, nonce, ciphertext, nil)") &&
 			strings.Contains(decBody, "len(data) < nonceSize")
 		_ = token.NoPos
+		// key derivation: create32ByteKey must be sha256.Sum256 of the whole secret
+		kd := findFunc(f4, "", "create32ByteKey")
+		if kd == nil {
+			return Result{}, fmt.Errorf("create32ByteKey not found")
+		}
+		keyDerivation := src(fset4, kd.Body)
 
 		b := func(x bool) string {
 			if x {
@@ -195,6 +201,8 @@ func init() {
 		sb.WriteString("def gcmDecryptEmptyPassthrough : Bool := " + b(decEmpty) + "\n")
 		sb.WriteString("def gcmSealPrependsNonce : Bool := " + b(sealNoncePrefix) + "\n")
 		sb.WriteString("def gcmOpenSplitsNonce : Bool := " + b(openSplit) + "\n")
+		sb.WriteString("/-- body of create32ByteKey (key derivation from the configured secret) -/\n")
+		sb.WriteString("def keyDerivationBody : String := " + leanStr(keyDerivation) + "\n")
 		sb.WriteString("\nend OpenFGAVerif.Gen.Token\n")
 		return Result{Lean: sb.String(), Summary: map[string]interface{}{
 			"serializeSep": serSep, "deserializeSep": cutSep, "base64": []string{encFl, decFl},
